@@ -58,6 +58,8 @@ type jprinter struct {
 	r     *rand.Rand
 	sb    strings.Builder
 	esc64 bool
+	// plainZero: never spell an integer zero as "-0" (that spelling is C02's business)
+	plainZero bool
 }
 
 func (p *jprinter) ws() {
@@ -150,7 +152,7 @@ func (p *jprinter) intLit(n int64) {
 		p.sb.WriteString(s + "0E-1")
 	case mode == 4 && exact && n%10 == 0 && n != 0:
 		p.sb.WriteString(strconv.FormatInt(n/10, 10) + "e+1")
-	case mode == 5 && n == 0:
+	case mode == 5 && n == 0 && !p.plainZero:
 		p.sb.WriteString("-0")
 	default:
 		p.sb.WriteString(s)
@@ -159,6 +161,10 @@ func (p *jprinter) intLit(n int64) {
 
 func (p *jprinter) dblLit(bits uint64) {
 	f := math.Float64frombits(bits)
+	if bits == 0x8000000000000000 && p.plainZero {
+		p.sb.WriteString("-0.0")
+		return
+	}
 	mode := 0
 	if p.r != nil {
 		mode = p.r.Intn(4)
@@ -243,8 +249,8 @@ func (p *jprinter) val(x *JX) {
 	}
 }
 
-func printJX(x *JX, r *rand.Rand, esc64 bool) string {
-	p := &jprinter{r: r, esc64: esc64}
+func printJX(x *JX, r *rand.Rand, esc64 bool, plainZero bool) string {
+	p := &jprinter{r: r, esc64: esc64, plainZero: plainZero}
 	p.ws()
 	p.val(x)
 	p.ws()
@@ -272,7 +278,7 @@ func (c *c02) run(jc J2TCase) {
 	} else if jc.Text != nil {
 		text = []byte(*jc.Text)
 	} else {
-		text = []byte(printJX(jc.J, rand.New(rand.NewSource(jc.Seed)), jc.Variant == "b64-escaped"))
+		text = []byte(printJX(jc.J, rand.New(rand.NewSource(jc.Seed)), jc.Variant == "b64-escaped", c.prop == "c16"))
 	}
 	d, err := parseChecked(text)
 	if err != nil {
@@ -472,7 +478,7 @@ func (c *c02) genRandom(seed int64, base, n int) {
 			x := genDoc(r, c.cur.From, c.cur, 0, o)
 			fixJX(&x)
 			variant := "random"
-			if r.Intn(25) == 0 {
+			if r.Intn(25) == 0 && c.prop != "c16" {
 				variant = "b64-escaped"
 			}
 			jc := J2TCase{Variant: variant, J: &x, O: o, Seed: r.Int63()}
